@@ -1519,5 +1519,29 @@ def chain(*oracles):
             r2 = wrap(how, base(interp, env, f2, args, t, bb, path), interp, env)
             if r2 is not TOP:
                 return r2
+        # the read accessors of the population stack: a rule that answers `current()` / `current_mut()` with its scenario's
+        # top population answers get_current[_mut]() (Some of it), peek(0) and try_peek(0) the same way
+        PK_ = "mahf::state::common::Populations::"
+        if k.startswith(PK_):
+            fam = {"current": [("current_mut", "id"), ("get_current", "unsome"), ("get_current_mut", "unsome")],
+                   "current_mut": [("get_current_mut", "unsome"), ("current", "id")],
+                   "get_current": [("current", "some"), ("current_mut", "some"), ("get_current_mut", "id")],
+                   "get_current_mut": [("current_mut", "some"), ("current", "some")],
+                   "peek": [("current", "id"), ("current_mut", "id")], "try_peek": [("current", "some"), ("current_mut", "some"), ("get_current", "id")]}.get(nm, ())
+            if nm in ("peek", "try_peek") and not (len(args) == 2 and isinstance(args[1], int) and not isinstance(args[1], bool) and args[1] == 0):
+                fam = ()
+            for sib, how in fam:
+                f2 = sibling_call(f, PK_ + sib, sib)
+                f2["_alias"] = True
+                r2 = base(interp, env, f2, args[:1], t, bb, path)
+                if r2 is TOP or r2 == "DIVERGE":
+                    continue
+                if how == "some":
+                    return some(r2)
+                if how == "unsome":
+                    if isinstance(r2, Agg) and r2.variant == "Some":
+                        return r2.fields[0]
+                    continue
+                return r2
         return TOP
     return o
